@@ -69,6 +69,22 @@ type rRound struct {
 	// EmptyEOM: the end-of-message flag comes in a trailing packet without data (the last packet with data does
 	// not carry it).
 	EmptyEOM bool `json:"empty_eom,omitempty"`
+	// Dangle > 0 (only behind a response whose last package is a DONE with final status): the message goes on with
+	// the first Dangle bytes of a server message and ends there. What the library makes of the fragment is not
+	// judged (the response is over with its final DONE); the NEXT response must be delimited like any other.
+	Dangle int `json:"dangle,omitempty"`
+}
+
+// roundBody is what the server sends for the round.
+func roundBody(rd rRound) []byte {
+	var body []byte
+	for _, it := range rd.Items {
+		body = append(body, it.bytes()...)
+	}
+	if rd.Dangle > 0 {
+		body = append(body, peer.EED(7, 1, 16, "ZZZZZ", 0, 0, "dangling message", "srv", "", 1)[:rd.Dangle]...)
+	}
+	return body
 }
 
 type roundsPlan struct {
@@ -308,6 +324,9 @@ func genRounds(r *Rand, nRounds int, eedPct, envPct int, hooks bool) []rRound {
 		rd.ErrEOF = rd.Mode == "until-err" && r.Pct(30)
 		rd.ErrTrue = rd.Mode == "until-err" && r.Pct(20)
 		rd.EmptyEOM = r.Pct(12)
+		if lastIt := items[len(items)-1]; (lastIt.K == "done" || lastIt.K == "doneproc") && lastIt.Status == 0 && r.Pct(8) {
+			rd.Dangle = Pick(r, []int{1, 3, 10, 17})
+		}
 		rd.Slow = !rd.Poll && r.Pct(8)
 		if !rd.Slow && !rd.Poll && r.Pct(8) {
 			rd.PauseAt = 1 + r.Intn(3)
@@ -416,6 +435,9 @@ func shrinkRounds(p *roundsPlan) []interface{} {
 		if rd.ErrTrue {
 			mod(func(x *rRound) { x.ErrTrue = false })
 		}
+		if rd.Dangle > 1 {
+			mod(func(x *rRound) { x.Dangle = 1 })
+		}
 		if rd.EmptyEOM {
 			mod(func(x *rRound) { x.EmptyEOM = false })
 		}
@@ -512,10 +534,7 @@ func runRounds(p *roundsPlan, schedSeed uint64, replay []simrt.Choice, lenient, 
 		if err != nil || ri >= len(p.Rounds) {
 			return
 		}
-		var body []byte
-		for _, it := range p.Rounds[ri].Items {
-			body = append(body, it.bytes()...)
-		}
+		body := roundBody(p.Rounds[ri])
 		if p.Rounds[ri].Truncated {
 			pks := roundPackets(p.Rounds[ri], body, m.Channel)
 			pr.SendPackets(pks[:len(pks)-1])
@@ -1002,9 +1021,24 @@ func (c03) Run(plan interface{}, schedSeed uint64, replay []simrt.Choice, lenien
 		if rd.Slow {
 			v.Probe("slow-response")
 		}
+		if rd.Dangle > 0 && ri < len(p.Rounds)-1 {
+			v.Probe("response-after-a-dangling-fragment")
+			if !visibleAny(p.Rounds[ri+1].Items) {
+				v.Probe("response-after-a-dangling-fragment:nothing-visible")
+			}
+		}
 	}
 	v.Sample = roundsSample(p)
 	return v, out
+}
+
+func visibleAny(items []rItem) bool {
+	for _, it := range items {
+		if it.visible() {
+			return true
+		}
+	}
+	return false
 }
 
 // prevEnd tells how the previous response ended (the library keeps the last received package across responses).
@@ -1333,7 +1367,7 @@ func (c11) Run(plan interface{}, schedSeed uint64, replay []simrt.Choice, lenien
 
 // RequiredProbes: a batch in which one of these never fired explored nothing of that kind (exit 2, not a pass).
 func (c03) RequiredProbes() []string {
-	return []string{"mode:manual", "mode:until-true", "mode:until-eof", "mode:until-err", "mode:until-nil", "mode:mixed", "end:final-done", "end:done-with-bits", "end:no-done", "end:nothing-visible"}
+	return []string{"mode:manual", "mode:until-true", "mode:until-eof", "mode:until-err", "mode:until-nil", "mode:mixed", "end:final-done", "end:done-with-bits", "end:no-done", "end:nothing-visible", "response-after-a-dangling-fragment"}
 }
 func (c11) RequiredProbes() []string {
 	return []string{"eed-hook-calls", "env-hook-calls", "concurrent-hook-registration"}
